@@ -1,9 +1,13 @@
-from props.common import run_bounded, add_obs
+from props.common import run_bounded, add_obs, verify_keys
 from pv import obs_tables as T
 
 
 def run(report):
     add_obs(report, lambda: T.all_versions(which=('lang', 'plans', 'll1'))[0], name='tables')
+    # "errors only where a statement or block is expected": recovery cuts the stack back to a file_input / suite entry (or the
+    # root), and the removed entries' nodes go, as one error node, into that entry (contracts/parser.py)
+    verify_keys(report, ['parso.python.parser.Parser.error_recovery.current_suite', 'parso.python.parser.Parser._stack_removal',
+                         'parso.python.parser.Parser.error_recovery#recover'])
     report.assume("engine stack invariant I_stack (every stack entry spells a run of its rule's automaton) is stated in "
                   "DESIGN 4/C05 but not discharged deductively; tree conformance rests on the T table facts plus the "
                   "bounded conformance monitor",
